@@ -68,11 +68,7 @@ _R["$fields"].types.update({
     "FileSourceProvider._FileSourceProvider__did_final_line_end_with_newline": "bool",
 })
 
-register(Assumed("pymarkdown/general/source_providers.py::FileSourceProvider.__init__",
-                 raises=[Raises("OSError"), Raises("UnicodeError")],
-                 ensures=["self.__read_index == 0", "len(self.__read_lines) >= 1"],
-                 modifies=["self.__read_lines", "self.__read_index", "self.__did_final_line_end_with_newline"],
-                 why="TEMPORARY: to be replaced by the proved contract of C14 (open/readlines assumed)"))
+
 
 from pyvc.spec import PROTECTED_FIELDS
 PROTECTED_FIELDS.update({
@@ -105,3 +101,16 @@ PROTECTED_FIELDS["$static.ReturnCodeHelper._ReturnCodeHelper__helper_name"] = "c
 register(Assumed("inspect.stack", returns="List[FrameInfo]", ensures=["len(result) >= 1"], pure=True,
                  why="inspect.stack() always contains the current frame; used only to name the action in an error message"))
 _R["$fields"].types.update({"FrameInfo.function": "str"})
+
+
+# open(...) as a context manager + readlines(): universal-newline semantics of text mode
+register(Assumed("builtins.open", params=["file", "mode"], returns="TextFile", fresh_result=True,
+                 raises=[Raises("OSError")], pure=True,
+                 why="open() returns a file object or raises OSError; the file system is not modelled"))
+register(Assumed("open.__exit__", pure=True, why="closing a file read in full"))
+register(Assumed("TextFile.readlines", params=[], returns="List[str]", fresh_result=True, raises=[Raises("UnicodeError"), Raises("OSError")],
+                 ensures=["forall(lambda k: len(result[k]) >= 1, 0, len(result))",
+                          "forall(lambda k: newline_free(result[k], 0, len(result[k]) - 1), 0, len(result))",
+                          "forall(lambda k: result[k].endswith('\\n'), 0, len(result) - 1)"],
+                 why="text-mode readlines(): every element non-empty, a newline only as last character, all but the last "
+                     "element end with a newline (universal newlines translate \\r\\n and \\r); may raise UnicodeDecodeError"))
